@@ -1,15 +1,15 @@
 #!/bin/bash
 # seed_all.sh <patch.diff>: apply a seeded change to /repo, run ALL twenty quick checks (facts cached per tree hash), undo.
 P="$1"
-cd /repo || exit 2
+cd ${JV_REPO:=/repo} || exit 2; export JV_REPO
 git diff --quiet && git diff --cached --quiet || { echo "repo dirty"; exit 2; }
 restore() { git reset -q HEAD -- . 2>/dev/null; git checkout -q -- . 2>/dev/null; }
 git apply --check "$P" 2>/dev/null && git apply "$P" || { echo "PATCH DOES NOT APPLY: $P"; restore; exit 3; }
 ids=$(python3 -c "import json;print(' '.join(c['property_id'] for c in json.load(open('/verif/MANIFEST.json'))['checks']))")
 JV_CACHE=1 /verif/check C19 >/dev/null 2>&1   # warm the fact cache once (C19 also extracts T3)
 for c in $ids; do
-  ( out=$(JV_CACHE=1 /verif/check "$c" 2>&1); echo "$out" | grep -q "^\[$c" || { echo "$c: NO VERDICT"; echo "$out" | tail -3; }; echo "$out" | grep -m1 "^\[$c" | sed -E 's/obligations.*violations=/violations=/' ; echo "$out" | grep -A2 "^VIOLATION" | grep -v "^--" | head -6 | cut -c1-300 ) > /tmp/seedall.$c.out 2>&1 &
+  ( out=$(JV_CACHE=1 /verif/check "$c" 2>&1); echo "$out" | grep -q "^\[$c" || { echo "$c: NO VERDICT"; echo "$out" | tail -3; }; echo "$out" | grep -m1 "^\[$c" | sed -E 's/obligations.*violations=/violations=/' ; echo "$out" | grep -A2 "^VIOLATION" | grep -v "^--" | head -6 | cut -c1-300 ) > /tmp/seedall.${JV_TAG:-x}.$c.out 2>&1 &
 done
 wait
-for c in $ids; do cat /tmp/seedall.$c.out; rm -f /tmp/seedall.$c.out; done
+for c in $ids; do cat /tmp/seedall.${JV_TAG:-x}.$c.out; rm -f /tmp/seedall.${JV_TAG:-x}.$c.out; done
 restore; git status --short | head -3
